@@ -513,9 +513,12 @@ def run_case(ctx, e, case, idx, model_out):
             ctx.oracle_fail(key + ':not-nothing', 'the body raised %s; committed rows are%s /%s, expected the initial%s'
                             % (want_exc, fmt_rows(rows1), fmt_rows(rows2), fmt_rows(INITIAL)), desc)
     # through the ORM on the restored connection: the instances the program held from before the call, and a fresh get
+    def assigned(k):
+        vals = [vv for (op, kk, vv) in steps[:executed] if op == 'U' and kk == k]
+        return vals[-1] if vals else None
     for k, v in sorted(held.items()):
         if v != rows2.get(k):
-            if want_exc is not None and any(op == 'U' and kk == k for (op, kk, _) in steps[:executed]):
+            if want_exc is not None and assigned(k) is not None and v == assigned(k):
                 known_once(ctx, 'after the rolled-back doInTransaction the instance of row %d that the body assigned to still '
                            'shows %s; the row holds %s' % (k, v, rows2.get(k)), desc)
             else:
@@ -523,7 +526,7 @@ def run_case(ctx, e, case, idx, model_out):
                                 'by %s) shows %s on the restored connection; the row holds %s' % (k, mode, v, rows2.get(k)), desc)
     for k, v in sorted(fresh.items()):
         if v != rows2.get(k):
-            if want_exc is not None and any(op == 'U' and kk == k for (op, kk, _) in steps[:executed]):
+            if want_exc is not None and assigned(k) is not None and v == assigned(k):
                 known_once(ctx, 'after the rolled-back doInTransaction get(%d) on the restored connection shows %s; the row '
                            'holds %s' % (k, v, rows2.get(k)), desc)
             else:
